@@ -34,9 +34,12 @@ pub enum AttrStyle {
     Any,
     /// the set_namespace / set_attribute shorthands
     Set,
+    /// append_namespace(&CreateNamespace), every other prefix declared first with a provisional URI and then again with
+    /// the final one (an update in place); attributes as nodes, every other one first with a provisional value
+    Redeclare,
 }
 
-pub const STYLES: [AttrStyle; 4] = [AttrStyle::Map, AttrStyle::Node, AttrStyle::Any, AttrStyle::Set];
+pub const STYLES: [AttrStyle; 5] = [AttrStyle::Map, AttrStyle::Node, AttrStyle::Any, AttrStyle::Set, AttrStyle::Redeclare];
 
 pub fn new_leaf(xot: &mut Xot, a: &ANode) -> Node {
     match a.kind {
@@ -73,6 +76,16 @@ fn add_abnormal_part(xot: &mut Xot, e: Node, a: &ANode, style: AttrStyle, h: &mu
             AttrStyle::Set => {
                 xot.set_namespace(e, pid, nid);
             }
+            AttrStyle::Redeclare => {
+                if (p.len() + u.len()) % 2 == 0 {
+                    let draft = xot::xmlname::CreateNamespace::new(xot, p, "urn:zz:provisional");
+                    xot.append_namespace(e, &draft)
+                        .map_err(|er| format!("append_namespace (provisional) failed: {:?}", er))?;
+                }
+                let cn = xot::xmlname::CreateNamespace::new(xot, p, u);
+                xot.append_namespace(e, &cn)
+                    .map_err(|er| format!("append_namespace failed: {:?}", er))?;
+            }
             AttrStyle::Node => {
                 let n = xot.new_namespace_node(pid, nid);
                 xot.append_namespace_node(e, n)
@@ -94,6 +107,16 @@ fn add_abnormal_part(xot: &mut Xot, e: Node, a: &ANode, style: AttrStyle, h: &mu
             }
             AttrStyle::Set => {
                 xot.set_attribute(e, name, v.clone());
+            }
+            AttrStyle::Redeclare => {
+                if (q.local.len() + v.len()) % 2 == 0 {
+                    let n0 = xot.new_attribute_node(name, "provisional".to_string());
+                    xot.append_attribute_node(e, n0)
+                        .map_err(|er| format!("append_attribute_node (provisional) failed: {:?}", er))?;
+                }
+                let n = xot.new_attribute_node(name, v.clone());
+                xot.append_attribute_node(e, n)
+                    .map_err(|er| format!("append_attribute_node failed: {:?}", er))?;
             }
             AttrStyle::Node => {
                 let n = xot.new_attribute_node(name, v.clone());
